@@ -4,6 +4,7 @@ import (
 	"bytes"
 	"crypto/sha256"
 	"fmt"
+	"os"
 	"sync"
 	"sync/atomic"
 
@@ -397,29 +398,70 @@ func c04Concurrent(c *vc.Ctx, batch int) {
 	}
 }
 
+// c04Bridge: the same verdicts through the caller that matters - deposit checking in the real application. Bitcoin blocks
+// of k transactions are mined in which every position 1..k-1 carries a genuine deposit (so every tree shape is used,
+// including the last transaction of an odd-sized block, whose path starts with its own txid), their hashes are voted,
+// and each deposit is submitted on its own with its genuine path and position: all of them must be accepted. A deposit
+// that is refused while its neighbours of the same block pass differs from them in position and path only.
+func c04Bridge(c *vc.Ctx, batch int) {
+	sizes := [][]int{{2, 3, 4, 5}, {6, 7, 9}, {8, 11, 13}, {16, 17}, {15, 33}, {31, 32}}[batch%6]
+	res, ok := depositProbe(c, batch, "c04bridge", sizes, nil, nil)
+	accepted := 0
+	for _, r := range res {
+		c.Eval(1)
+		c.Nontrivial("bridge k=%d pos=%d last=%v accepted=%v", r.blockTxs, r.d.Index, r.d.Index == r.blockTxs-1, r.code == 0)
+		if r.code == 0 {
+			accepted++
+			c.Count("genuine_proofs_accepted_through_the_bridge", 1)
+		}
+	}
+	if !ok || accepted == 0 {
+		if len(res) > 0 && accepted == 0 {
+			c.Inconclusive("no deposit of the probe was accepted (first answer: %s)", res[0].log)
+		}
+		return
+	}
+	for _, r := range res {
+		if r.code != 0 {
+			c.Violation("the bridge refuses a valid inclusion proof", fmt.Sprintf("transaction %d of a block of %d transactions (genuine path of %d nodes, true position) refused: %s; %d other deposits of the probe were accepted", r.d.Index, r.blockTxs, len(r.d.Block.Tree.Proof(r.d.Index))/32, errClass(r.log), accepted),
+				map[string]any{"block_transactions": r.blockTxs, "position": r.d.Index, "log": r.log})
+		}
+	}
+}
+
 func init() {
 	quickRand, thoroughRand := 16, 400
 	quickConc, thoroughConc := 6, 24
+	quickBridge, thoroughBridge := 3, 12
 	vc.Register(&vc.Check{
 		ID: "C04", Title: "Merkle inclusion proofs are sound and position-binding", Level: "exploration",
 		Rule: "bounded-exhaustive differential of VerifyMerkelProof against a reference written from the statement: every tree size in {1..33,63,64,65}, " +
 			"every leaf, every claimed position in [0,4*2^depth) plus aliases pos+2^k and 2^31/2^32-1, path variants genuine/truncated/extended/swapped/bit-flipped/ragged/empty and wrong leaf/root sizes; " +
 			"then seeded random trees (size<=300) with mutated positions and paths; then synthetic paths of 13..100 nodes (around and beyond the 32-bit width of the position) whose root is the fold of a random leaf under positions 0, 1, 2^31, 2^32-1, 2^d-1 and random ones, each also with one sibling changed and with one position bit flipped. Non-trivial = the claimed position or the path differs from the genuine one; " +
 			"distinct = (tree size, variant, position class, verdict). " +
-			"Then concurrent batches: 16 goroutines verify genuine proofs, foreign leaves under genuine paths, sibling positions and bit-flipped paths of one tree at the same time, next to goroutines double-hashing transactions, every verdict and digest compared with the sequentially computed reference; the whole check also runs in the race-detector build, where a report of unsynchronised shared memory is a violation.",
+			"Then concurrent batches: 16 goroutines verify genuine proofs, foreign leaves under genuine paths, sibling positions and bit-flipped paths of one tree at the same time, next to goroutines double-hashing transactions, every verdict and digest compared with the sequentially computed reference; the whole check also runs in the race-detector build, where a report of unsynchronised shared memory is a violation. " +
+			"Finally 3/12 histories on the real application: Bitcoin blocks of 2..33 transactions in which every position carries a genuine deposit, each submitted with its genuine path and position - all must be accepted by deposit checking (the caller of the verifier).",
 		Assume: []string{"crypto/sha256 of the Go standard library is correct (the reference and the tree builder use it, not pkg/crypto)"},
 		Cases: func(tier string) int {
 			if tier == "thorough" {
-				return len(c04Sizes) + thoroughRand + 16 + thoroughConc
+				return len(c04Sizes) + thoroughRand + 16 + thoroughConc + thoroughBridge
 			}
-			return len(c04Sizes) + quickRand + 4 + quickConc
+			return len(c04Sizes) + quickRand + 4 + quickConc + quickBridge
 		},
 		Run: func(c *vc.Ctx, i int) {
 			nd := map[string]int{"quick": 4, "thorough": 16}[c.Tier]
 			if base := len(c04Sizes) + map[string]int{"quick": quickRand, "thorough": thoroughRand}[c.Tier] + nd; i >= base {
+				if nc := map[string]int{"quick": quickConc, "thorough": thoroughConc}[c.Tier]; i >= base+nc {
+					if os.Getenv("VERIF_SANITIZER_BUILD") == "" { // the application histories run on the plain build only
+						c04Bridge(c, i-base-nc)
+					}
+					return
+				}
 				c04Concurrent(c, i-base)
 				return
 			}
+			_ = quickBridge
+			_ = thoroughBridge
 			_ = quickConc
 			_ = thoroughConc
 			if i < len(c04Sizes) {
